@@ -266,6 +266,12 @@ pub fn gen_input(rng: &mut Rng) -> Input {
     // every execution should call functions before anything can fail (state hidden in the function
     // table or behind Functions::call shows only if calls happen): the module stanza goes first
     if !kind.starts_with("fault:load") && kind != "fault:unused-captures" && rng.chance(85) { stanzas.insert(0, SAFE_STANZAS[0].to_string()); }
+    // a global with a default, read by a stanza: sub-check (b2) runs the one loaded file with and without a value for it
+    if rng.chance(60) {
+        preamble.push("global c12_dflt = \"c12-default\"".to_string());
+        stanzas.push("(module) @_m {\n  node d_\n  attr (d_) dv = c12_dflt\n}\n".to_string());
+        if rng.chance(40) { supplied.push(("c12_dflt".to_string(), GV::Str("c12-given".into()))); }
+    }
     supplied.push(("c12_extra".to_string(), GV::List(vec![GV::Int(7), GV::Str("seven".into())])));
     let mut text = preamble;
     text.extend(stanzas);
@@ -415,6 +421,11 @@ fn isolated(inp: &Input, tree_idx: usize, lazy: bool) -> RunObs {
 }
 
 pub struct Transcript { pub load: String, pub runs: Vec<RunObs> }   // runs: index = 2 * tree + lazy
+impl Input {
+    fn clone_with_supplied(&self, supplied: Vec<(String, GV)>) -> Input {
+        Input { kind: self.kind.clone(), dsl: self.dsl.clone(), srcs: self.srcs.clone(), supplied, unused: self.unused.clone() }
+    }
+}
 impl Transcript {
     pub fn line(&self) -> String {
         let mut all = String::new();
@@ -543,6 +554,48 @@ pub fn build(inp: &Input) -> Built {
             }
         }
         if b_fail > 0 { mask |= 2; }
+
+        // (b2) the same loaded File executed with DIFFERENT caller globals in turn (a defaulted global left out,
+        // then supplied, then left out again; a required global missing in between): every run equals the isolated
+        // run (fresh load) under the same globals -- nothing derived from one execution's globals may stay in the File
+        let defaulted: Vec<String> = file.globals.iter().filter(|g| g.default.is_some()).map(|g| g.name.to_string()).collect();
+        let required: Vec<String> = file.globals.iter().filter(|g| g.default.is_none()).map(|g| g.name.to_string()).collect();
+        if !defaulted.is_empty() || !required.is_empty() {
+            tags.push("sub:b2".into());
+            let without: Vec<(String, GV)> = inp.supplied.iter().filter(|(k, _)| !defaulted.contains(k)).cloned().collect();
+            let mut with: Vec<(String, GV)> = without.clone();
+            for d in &defaulted { with.push((d.clone(), GV::Str("c12-override".into()))); }
+            let mut variants: Vec<(&str, Vec<(String, GV)>)> = Vec::new();
+            if !defaulted.is_empty() { variants.push(("defaults-omitted", without.clone())); variants.push(("defaults-supplied", with.clone())); }
+            if let Some(r) = required.first() {
+                variants.push(("required-missing", inp.supplied.iter().filter(|(k, _)| k != r).cloned().collect()));
+            }
+            variants.push(("as-given", inp.supplied.clone()));
+            if !defaulted.is_empty() { variants.push(("defaults-omitted", without)); variants.push(("defaults-supplied", with)); }
+            // a File of its own, so that the order of (b) does not decide what this one sees first
+            let (file2, _) = load_obs(&inp.dsl);
+            if let Some(file2) = &file2 {
+                let mut b2_fail = 0;
+                for lazy in [false, true] {
+                    for (k, (label, vars)) in variants.iter().enumerate() {
+                        let g = make_variables(vars);
+                        let o = run_on(file2, &functions, &g, &trees[0], inp.srcs[0].as_str(), lazy);
+                        let mut alone = inp.clone_with_supplied(vars.clone());
+                        alone.unused = None;
+                        let want = isolated(&alone, 0, lazy);
+                        if o != want {
+                            b2_fail += 1;
+                            if b2_fail == 1 {
+                                notes.push(format!("(b2) run #{} ({}, {}) of one loaded file under changing globals differs from the isolated run {}", k, label,
+                                    if lazy { "lazy" } else { "strict" }, first_diff(&o.text, &want.text)));
+                            }
+                        }
+                    }
+                }
+                if b2_fail > 0 { mask |= 2; }
+                tags.push(format!("b2_variants:{}", variants.len()));
+            }
+        }
         interleaved_trees = seen_trees.iter().map(|t| inp.srcs[*t].as_str()).collect::<BTreeSet<_>>().len();
         tags.push(format!("interleaved_distinct_trees:{}", interleaved_trees));
 
